@@ -8,6 +8,10 @@ use std::{
 
 pub type TranspositionTable = HashMap<u64, TableEntry, BuildNoHashHasher<u64>>;
 
+/// Iterative deepening never goes past this depth, which keeps the ply counter
+/// inside `killer_moves` and the per-ply state stack inside its capacity
+const MAX_DEPTH: u8 = 32;
+
 #[derive(Clone, Copy, PartialEq, Eq, Debug)]
 enum NodeType {
     Exact,
@@ -340,7 +344,7 @@ pub fn get_best_move_entry(
         return Some((moves.first().copied(), 0, true));
     }
 
-    let mut killer_moves = [None; 32];
+    let mut killer_moves = [None; MAX_DEPTH as usize];
     let mut best_move = None;
     let mut best_score = Score::MIN + 1;
 
@@ -471,7 +475,10 @@ pub fn get_best_move_until_stop(
         })
         .unwrap_or(1);
 
-    for depth in starting_depth.. {
+    let limit = max_depth.unwrap_or(MAX_DEPTH).clamp(1, MAX_DEPTH);
+    let starting_depth = starting_depth.min(limit);
+
+    for depth in starting_depth..=limit {
         let Some((best_move, best_score, is_only_move)) =
             get_best_move_entry(game.clone(), continue_running, depth, table, &mut history)
         else {
@@ -503,7 +510,7 @@ pub fn get_best_move_until_stop(
         println!();
 
         // If mate can be forced, or there is only a single move available, stop searching
-        if max_depth.is_some_and(|d| d == depth)
+        if depth == limit
             || is_only_move
             || best_score > Score::MAX - 1000
             || best_score < Score::MIN + 1000
@@ -512,5 +519,5 @@ pub fn get_best_move_until_stop(
         }
     }
 
-    unreachable!()
+    found_move
 }
